@@ -79,7 +79,10 @@ func TestC18(t *testing.T) {
 		}
 		// a decoy for another operation must never fire
 		var decoyFired int64
-		s.Add(faults.Description{Operation: "other", Count: 5, OnFault: func(faults.Description, faults.Parameters) error { atomic.AddInt64(&decoyFired, 1); return errors.New("decoy") }})
+		s.Add(faults.Description{Operation: "other", Count: 5, OnFault: func(faults.Description, faults.Parameters) error {
+			atomic.AddInt64(&decoyFired, 1)
+			return errors.New("decoy")
+		}})
 		nc := callers[r.Intn(len(callers))]
 		// call kinds: matching (superset of every description), or not matching (missing / different value)
 		kinds := make([]int, nc)
